@@ -81,3 +81,15 @@ Theorem C05_reload_relearns_dependencies : forall fuel s k n t old s1 tr v tok,
     = (s1, tr, Sys.ROk (v, tok)) ->
   SysGraph.deps_of (Sys.graph (fst (Sys.reload_one fuel s k))) (Sys.DepAsset k) = snd (Sys.rec_pop s1).
 Proof. exact SysGraph.reload_relearns_dependencies. Qed.
+
+(* completeness of a pass, in every reachable state: every asset that depends -- transitively, through
+   the dependencies recorded by the latest successful loads -- on an entry that was reported changed
+   (and that some load has read) is reloaded by every pass the model accepts; with C06's precision
+   theorem: a legal pass visits exactly the dependents of the changes.  (The search that computes the
+   set has enough fuel on every graph: Proofs/SysGraph.v, bfs_closed.) *)
+Theorem C05_a_pass_skips_nothing_that_depends_on_a_change : forall reloader ops order k r,
+  let s := Sys.drain (fst (Sys.run (Sys.init_st reloader) ops)) in
+  Sys.legal_order s order = true ->
+  In r (Sys.to_reload s) -> SysGraph.has_node (Sys.graph s) r ->
+  SysGraph.tdep (Sys.graph s) (Sys.DepAsset k) r -> In k order.
+Proof. exact SysGraph.hot_reload_is_complete. Qed.
